@@ -292,6 +292,10 @@ func (c *Collection) updateView(ctx context.Context, designDoc string, viewName 
 									VALUES (?1, ?2, ?3, ?4)`,
 					view.id, docRows.doc_id, string(row.key), string(row.value))
 				if err != nil {
+					// Let the pipeline run dry first: the goroutines that read and map the remaining
+					// documents would otherwise stay blocked on their output channel for ever.
+					for range mapOutputChan {
+					}
 					return err
 				}
 			}
